@@ -87,6 +87,16 @@ func VH_C16_layout() {
 	if vBool("tabSeparatedDescription") {
 		sep = "\t"
 	}
+	// white space right after '>' and at the end of the header belongs to the description (the whole header)
+	lead, trail := "", ""
+	switch vChoice("headerPadding", 4) {
+	case 1:
+		lead = " "
+	case 2:
+		trail = " "
+	case 3:
+		lead, trail = "\t", "\t "
+	}
 	lw := 1 + vChoice("linewidth", W)
 	nl := "\n"
 	if crlf {
@@ -99,9 +109,9 @@ func VH_C16_layout() {
 		for i := range txt[r] {
 			txt[r][i] = vNuc(vName("s", r, i), "ACGTRYSWKMBDHVN-?acgtryswkmbdhvn")
 		}
-		data = append(data, []byte(">id"+string(rune('0'+r)))...)
+		data = append(data, []byte(">"+lead+"id"+string(rune('0'+r)))...)
 		if descr {
-			data = append(data, []byte(sep+"some text")...)
+			data = append(data, []byte(sep+"some text"+trail)...)
 		}
 		data = append(data, []byte(nl)...)
 		for i := 0; i < W; i += lw {
@@ -132,9 +142,9 @@ func VH_C16_layout() {
 			}
 			for r := 0; r < R; r++ {
 				fr := o.plain[r]
-				wantDesc := "id" + string(rune('0'+r))
+				wantDesc := lead + "id" + string(rune('0'+r))
 				if descr {
-					wantDesc += sep + "some text"
+					wantDesc += sep + "some text" + trail
 				}
 				vAssert("C16.layout.plain-id-description-idx", fr.ID == "id"+string(rune('0'+r)) && fr.Description == wantDesc && fr.Idx == r)
 				vAssert("C16.layout.plain-seq-length", len(fr.Seq) == W)
@@ -152,9 +162,9 @@ func VH_C16_layout() {
 		}
 		for r := 0; r < R; r++ {
 			er := o.recs[r]
-			wantDesc := "id" + string(rune('0'+r))
+			wantDesc := lead + "id" + string(rune('0'+r))
 			if descr {
-				wantDesc += sep + "some text"
+				wantDesc += sep + "some text" + trail
 			}
 			vAssert("C16.layout.id-description-idx", er.ID == "id"+string(rune('0'+r)) && er.Description == wantDesc && er.Idx == r)
 			vAssert("C16.layout.seq-length", len(er.Seq) == W)
